@@ -341,3 +341,77 @@ def run_matrix(ctx, tier):
     res.note('the SIMD axis (AVX2 / SSE4.1) is compared at the API level only: equality of the intrinsic-based child searches is translation validation, not decided here')
     res.rule = 'CD-1/2'
     return res
+
+
+def assert_range(cfg):
+    """ASSERT-1: a debug-only counter compared with a narrower stored count cannot outgrow it"""
+    from .. import absint
+    from ..forwarders import is_assert_elem
+    from .point import _loop_body
+    res = RuleResult('ASSERT-1', 'assertions that compare a debug-only counter with a stored count of a narrower type stay silent on legal states: when the counter is incremented in a loop with a constant trip count (capped by the capacity of the node class, for counters of children) N, N fits the narrower type (N <= 2^w - 1), or both sides have the same width and wrap alike - a full I256 holds 256 children while its stored count is 8 bits wide and wraps to 0: a 32-bit debug counter reaching 256 would make the assertion fire on a legal node')
+    if '-debug-' not in cfg.name:
+        res.note('assertion-enabled configurations only')
+        return res
+    n = 0
+    for f in cfg.functions:
+        if not f.blocks:
+            continue
+        incs = {}
+        for b, i, e in f.elements():
+            if e.get('k') == 'unop' and e.get('op') == '++':
+                r = f.ref_of(e['sub'])
+                if r:
+                    incs.setdefault(r[0], []).append(b)
+        if not incs:
+            continue
+
+        def core(o):
+            x = f.resolve(o)
+            while isinstance(x, dict) and x.get('k') == 'cast':
+                x = f.resolve(x['sub'])
+            return x
+        for b, i, e in f.elements():
+            if not (e.get('k') == 'binop' and e.get('op') in ('==', '!=') and is_assert_elem(e)):
+                continue
+            l, r = core(e['l']), core(e['r'])
+            if not (isinstance(l, dict) and isinstance(r, dict) and l.get('w') and r.get('w') and l['w'] != r['w']):
+                continue
+            wide, narrow = (l, r) if l['w'] > r['w'] else (r, l)
+            if not (wide.get('k') == 'ref' and wide.get('did') in incs):
+                continue
+            # trip count of the loop(s) the counter is incremented in
+            bounds = []
+            for hb, blk in f.blocks.items():
+                if blk.get('term') not in ('ForStmt', 'WhileStmt', 'DoStmt') or blk.get('cond') is None:
+                    continue
+                body = _loop_body(f, hb)
+                if not any(ib in body for ib in incs[wide['did']]):
+                    continue
+                c = f.strip_casts(blk['cond'])
+                if isinstance(c, dict) and c.get('k') == 'binop' and c.get('op') in ('<', '!=', '<='):
+                    try:
+                        k = absint.ev(f, c['r'], {})
+                    except Exception:
+                        k = None
+                    if isinstance(k, tuple):
+                        k = k[0] if k[0] == k[1] else None
+                    if k is not None:
+                        bounds.append(k + (1 if c['op'] == '<=' else 0))
+            if not bounds:
+                continue
+            n += 1
+            res.functions.add(f.sig)
+            N = max(bounds)
+            # a counter of children cannot exceed the capacity of the node class it is counted in
+            import re as _re
+            mcap = _re.match(r'^unodb::detail::basic_inode_(4|16|48|256)<', f.cls or '')
+            if mcap:
+                N = min(N, int(mcap.group(1)))
+            ok = N <= (1 << narrow['w']) - 1
+            res.ob(ok, {'rule': 'ASSERT-1', 'function': sh(f.name)[:90], 'site': fileline(e.get('loc')), 'counter': wide.get('name'), 'counter_bits': wide['w'], 'compared_with_bits': narrow['w'], 'loop_trip_count': N, 'verdict': 'discharged' if ok else 'VIOLATION'})
+            if not ok:
+                res.find(f, e.get('loc'), 'the assertion compares the %d-bit debug counter `%s`, which can reach %d, with a %d-bit stored value that wraps at %d: on a completely full node (a legal state) the two differ and the assertion aborts an assertion-enabled build although nothing is wrong' % (wide['w'], wide.get('name'), N, narrow['w'], 1 << narrow['w']),
+                         key='ASSERT-1:%s' % (f.short or ''), config=cfg.name)
+    res.count('counter assertions', n)
+    res.floor('counter assertions', 2)
+    return res
